@@ -264,7 +264,7 @@ def cases(draw: Any, tier: str) -> Dict[str, Any]:
     if fam == "live":
         return {"family": "live", "live": draw(st.sampled_from(["event", "barrier", "fail"])), "k": draw(st.integers(2, 4)),
                 "config": {"mc": draw(st.integers(1, 3))}, "fail_res": draw(st.sampled_from(["async-thread", "thread", "main-thread"]))}
-    c = draw(richgen.rich_case(depth=1, max_stmts=7, flag_w=5, debug_w=1))
+    c = draw(richgen.rich_case(depth=1, max_stmts=7, flag_w=5, debug_w=1, split_w=1, seqop_w=1))
     P = c["prog"]
     sites = prog.sites_of(P)
     cfg = {"mc": draw(st.integers(1, 4)), "mode": "free",
